@@ -33,6 +33,7 @@ def run(prog: Program, rep: Report, tier: str):
     concat(prog, rep)
     chain(prog, rep)
     bulk_helpers(prog, rep)
+    lookups_pure(prog, rep)
     names.check(prog, rep, FILES, clause="C02.G1", floor=50)
 
 
@@ -64,6 +65,52 @@ def _getattr_routes(prog: Program, rep: Report, C: ClassInfo, clause: str):
     for prefix, handler in (("getitem_", "_call_getitem"), ("getall_", "_call_getall")):
         rep.decide(seen.get(prefix) == handler, "G9.getattr-routing", fi, f"route:{prefix}", f"'{prefix}*' -> self.{handler}",
                    f"'{prefix}*' is routed to {seen.get(prefix) or 'nothing'} instead of self.{handler}", clause=clause)
+
+
+def lookups_pure(prog: Program, rep: Report):
+    """A delegating __getattr__ must not leave anything behind on the layer it is asked through."""
+    rep.rule("G8.lookup-pure", "__getattr__ of every dataset layer only computes its answer: it stores nothing on self (no self.x = "
+             "..., no self.__dict__[...] / vars(self)[...] store or update, no setattr / object.__setattr__ on self) - an answer "
+             "cached on the layer would keep shadowing the wrapped dataset's attribute after that attribute changes (dispose, "
+             "relabelling), so delegation would depend on the history of earlier lookups")
+    n = 0
+    for C in sorted(prog.classes.values(), key=lambda c: c.qualname):
+        fi = C.methods.get("__getattr__")
+        if fi is None or prog.is_dead(C.module) or not C.module.relpath.startswith(("kappadata/datasets/", "kappadata/wrappers/")):
+            continue
+        n += 1
+        rep.analysed_add("functions", f"{fi.module.relpath}:{fi.qualname}")
+        ps = fi.params()
+        me = ps[0] if ps else "self"
+
+        def is_self(e):
+            return isinstance(e, ast.Name) and e.id == me
+
+        def self_dict(e):
+            return (isinstance(e, ast.Attribute) and e.attr == "__dict__" and is_self(e.value)) or (
+                isinstance(e, ast.Call) and isinstance(e.func, ast.Name) and e.func.id == "vars" and e.args and is_self(e.args[0]))
+        bad = []
+        for x in ast.walk(fi.node):
+            if isinstance(x, (ast.Assign, ast.AugAssign, ast.AnnAssign)):
+                tgs = x.targets if isinstance(x, ast.Assign) else [x.target]
+                for t in tgs:
+                    for y in ast.walk(t):
+                        if isinstance(y, ast.Attribute) and isinstance(y.ctx, ast.Store) and is_self(y.value):
+                            bad.append((x.lineno, f"self.{y.attr} = ..."))
+                        if isinstance(y, ast.Subscript) and isinstance(y.ctx, ast.Store) and self_dict(y.value):
+                            bad.append((x.lineno, "store into self.__dict__"))
+            if isinstance(x, ast.Call):
+                f = x.func
+                if isinstance(f, ast.Name) and f.id == "setattr" and x.args and is_self(x.args[0]):
+                    bad.append((x.lineno, "setattr(self, ...)"))
+                if isinstance(f, ast.Attribute) and f.attr in ("__setattr__",) and (is_self(f.value) or (x.args and is_self(x.args[0]))):
+                    bad.append((x.lineno, "__setattr__ on self"))
+                if isinstance(f, ast.Attribute) and f.attr in ("update", "setdefault", "__setitem__") and self_dict(f.value):
+                    bad.append((x.lineno, f"self.__dict__.{f.attr}(...)"))
+        rep.decide(not bad, "G8.lookup-pure", fi, "no-store-on-self", "computes its answer without storing on self",
+                   "; ".join(f"{w} (line {ln})" for ln, w in bad) + ": the looked-up value is cached on this layer and shadows "
+                   "the wrapped dataset's attribute from then on", line=bad[0][0] if bad else fi.node.lineno, clause="C02.3")
+    rep.floor("__getattr__ implementations of dataset layers", n, 3)
 
 
 def subset(prog: Program, rep: Report):
